@@ -161,6 +161,25 @@ def families(n: int) -> Dict[str, str]:
     }
 
 
+def pumped(n: int) -> Dict[str, str]:
+    """stem + unit * n + tail: every mark character and blank pumped in every control state of the scanner (a regular
+    expression or a loop that is super-linear in a run of one character shows here as a hang)."""
+    stems = ["", "@", "@a", "@a{", "@a{k", "@a{k,", "@a{k, f", "@a{k, f =", "@a{k, f = {", "@a{k, f = \"", "@a{k, f = x", "@comment", "@comment{",
+             "@string{", "@string{s =", "@preamble{", "x", "%", "@a{k, f = {x},", "@a{k}\n"]
+    units = [" ", "\t", " \t", "\n", " \n", "\\", "@", "{", "}", "\"", ",", "=", "#", "a", "\r", "é", "@a ", "{}", "\\\"", "a ", "@ ", "=,"]
+    tails = ["", "{", "}", "x", "\n@b{j}"]
+    out = {}
+    for i, st in enumerate(stems):
+        for j, u in enumerate(units):
+            for k, tl in enumerate(tails):
+                if (i + j + k) % 2 == 0 or n <= 64:      # half of the product at the large scale, all of it at 64
+                    out[f"pump[{st!r}+{u!r}*{n}+{tl!r}]"] = st + u * n + tl
+    return out
+
+
+SURROGATES = ["\ud800", "\udfff", "\udc80", "@a{k\ud800, f = {\udcff}}", "\udce9crit @a{k}", "@string{s = \"\ud83d\"}", "x\udc00\n@a{\ud800}"]
+
+
 GARBAGE = list("{}\",=\n@\\ \t\r#%") + ["@a{", "@comment{", "@string{", "@preamble{", "x", "é", "k1", " ", "\x0b", "@é{", "@{"]
 
 
